@@ -139,6 +139,16 @@ def gen_config(d: Draw, idx):
     R = d.pick([2.0e5, 1.8e6, 6.371e6, 1.2e7])
     cuts = sorted(set(d.between(5, 95) for _ in range(n - 1)))
     fracs = [c / 100.0 for c in cuts] + [1.0]
+    if len(fracs) >= 2 and d.chance(1, 5):
+        # a very thin layer (a regolith, sediments, a thin boundary layer): boundaries a few parts in 1e6 apart
+        thin = d.pick([3.0e-6, 1.0e-6, 5.0e-7, 5.5e-6])
+        where = d.weighted([('top', 3), ('inner', 1)])
+        if where == 'top':
+            fracs[-2] = 1.0 - thin
+        else:
+            k = d.below(len(fracs) - 1)
+            fracs[k] = (fracs[k + 1] - thin) if k + 1 < len(fracs) else fracs[k]
+        fracs = sorted(set(fracs))
     name = d.weighted([('Gen%d', 6), ('Gen%d_variant', 1), ('Gen%d_variant_9', 1), ('Gen%d_variant_10', 1), ('super-Gen%d', 1),
                        ('mini-Gen%d_variant_2', 1)]) % idx
     cfg = {'name': name, 'type': 'layered', 'radius': R, 'layers': {}}
